@@ -209,7 +209,8 @@ class AstAnalyzer:
                     # The body may execute zero times: whatever is live after the loop
                     # is also live before it.
                     curr = live_out | visit_block(stmt.body, prev).difference({p_loop_var})
-                return curr
+                # The loop bound is evaluated before the loop.
+                return curr | _used_vars(stmt.iter)
             if isinstance(stmt, ast.While):
                 cond_vars = _used_vars(stmt.test)
                 prev = None
